@@ -2,7 +2,7 @@
 //!
 //! Protocol on stdout (one line each, flushed before the next string/call starts):
 //!   `S <idx>`                       string idx is about to run (batch mode)
-//!   `C <call-desc>`                 call about to run (solo mode only)
+//!   `C <call-desc>`                 call about to run
 //!   `P <json>`                      a caught panic {idx, call, stage, msg, loc}
 //!   `D <idx> <parsed> <translated> <calls> <ok> <err> <max_us>`
 //!   `E`                             range finished
@@ -125,7 +125,7 @@ pub fn make_db(kind: DbKind) -> GrafeoDB {
 
 // --- parameter maps ---
 pub const PARAM_SETS_FULL: [&str; 17] = ["none", "empty", "missing", "null", "bool", "int", "intmax", "intmin", "float", "nan", "string", "bytes", "timestamp", "list", "map", "vector", "mixed"];
-pub const PARAM_SETS_NOREF: [&str; 3] = ["none", "empty", "map"];
+pub const PARAM_SETS_NOREF: [&str; 2] = ["none", "empty"];
 
 pub fn param_value(name: &str) -> Option<Value> {
     Some(match name {
@@ -363,10 +363,8 @@ impl Runner {
     pub fn run_string(&mut self, lang: Lang, q: &str, solo: Option<&SoloOpts>, out: &mut impl Write) -> Outcome {
         let mut o = Outcome { parsed: false, translated: false, calls: 0, ok: 0, err: 0, max_us: 0, panics: vec![] };
         let marker = |c: &Call, out: &mut dyn Write| {
-            if solo.is_some() {
-                let _ = writeln!(out, "C {}", c.desc());
-                let _ = out.flush();
-            }
+            let _ = writeln!(out, "C {}", c.desc());
+            let _ = out.flush();
         };
         let only_fe0 = solo.map(|s| s.only_fe0).unwrap_or(false);
         let skip_fe = solo.map(|s| s.skip_fe).unwrap_or(0);
